@@ -149,3 +149,13 @@ Theorem C19_semaphore_bound : forall (c : fcfg) (ls : list flabel) (st : fstate)
   calling st <= holding st /\ holding st = sem st /\ sem st <= cap c.
 Proof. exact semaphore_bound. Qed.
 Print Assumptions C19_semaphore_bound.
+
+(* Why the capacity must be >= 1: with at least one token the bookkeeping is never stuck - as long as
+   anything is parked, being released, dispatched or delivered, some [internal] step (any label but Arrive,
+   Cancel, WaitCloud, WaitBackend) is enabled, so WaitForEvents is never left waiting on a state that cannot
+   move.  (With capacity 0 the first DispatchEvent blocks for ever: Proofs/EventsExamples.v, ex_cap0_stuck.) *)
+Theorem C19_no_deadlock : forall (c : fcfg) (ls : list flabel) (st : fstate),
+  1 <= cap c -> run (fstep c) finit ls = Some st -> ~ quiescent st ->
+  exists l st', internal l = true /\ fstep c st l = Some st'.
+Proof. exact no_deadlock. Qed.
+Print Assumptions C19_no_deadlock.
